@@ -101,6 +101,12 @@ def qreluF (t : Tie) (c : ReluCfg) (x : Rat) : Rat :=
   let xq := fmul mi (fclip (fdiv r m) 0 (fsub 1 (fdiv 1 m)))
   steF xu xq
 
+/-- `quantization_scale`: `data_type_scale = K.pow(2.0, integer - bits + keep_negative)`, times
+    the (float32-converted) constant `alpha` when one is given -/
+def LinCfg.qsF (c : LinCfg) : Rat :=
+  let dts := pow2 (c.integer - c.ub)
+  match c.alpha with | none => dts | some a => fmul (rnd32 a) dts
+
 /-- `quantized_linear.__call__`, constant scale, `use_sign_function = False` (shift = 0.0):
 ```
   quantization_scale = alpha * K.pow(2.0, integer - bits + keep_negative)
@@ -113,8 +119,7 @@ def qreluF (t : Tie) (c : ReluCfg) (x : Rat) : Rat :=
 ``` -/
 def qlinearF (t : Tie) (c : LinCfg) (x : Rat) : Rat :=
   let u := pow2 c.ub
-  let dts := pow2 (c.integer - c.ub)
-  let qs := match c.alpha with | none => dts | some a => fmul (rnd32 a) dts
+  let qs := c.qsF
   let lo := fmul (b2r c.keepNeg) (fadd (-u) (b2r c.symmetric))
   let hi := fsub u 1
   let s := fdiv x qs
